@@ -129,7 +129,9 @@ func (g valueGen) generate(text string, args []string, withMap bool) (evalFn, er
 
 var errNoResult = fmt.Errorf("generate returned neither a function nor an error")
 
-type floatGen struct{ fg *funcGen.FunctionGenerator[float64] }
+type floatGen struct {
+	fg *funcGen.FunctionGenerator[float64]
+}
 
 func (g floatGen) generate(text string, args []string, withMap bool) (evalFn, error) {
 	f, _, err := g.fg.Generate(text, args...)
@@ -151,7 +153,9 @@ func (g floatGen) generate(text string, args []string, withMap bool) (evalFn, er
 	}, nil
 }
 
-type boolGen struct{ fg *funcGen.FunctionGenerator[bool] }
+type boolGen struct {
+	fg *funcGen.FunctionGenerator[bool]
+}
 
 func (g boolGen) generate(text string, args []string, withMap bool) (evalFn, error) {
 	f, _, err := g.fg.Generate(text, args...)
